@@ -28,6 +28,14 @@ LIBRARY = [
     ['def apply_fn(f, x):', "    print('applying')", '    r = f(x, x)', "    print('applied')", '    return r'],
     ['counter = 0'],
     ['def tick():', '    global counter', '    counter += 1', '    return counter'],
+    # callables that are not plain functions: instructors call() these by name all the same
+    ['import functools'],
+    ['biggest = max'],
+    ['add_ten = functools.partial(quiet, 10)'],
+    ['@functools.lru_cache(maxsize=None)', 'def cached_sq(n):', "    print('computing', n)", '    return n * n'],
+    ['class Acc:', '    def __init__(self):', '        self.total = 0', '    def add(self, n):', '        self.total += n',
+     '        return self.total'],
+    ['acc_add = Acc().add'],
 ]
 
 LIB_FUNCS = {
@@ -35,6 +43,7 @@ LIB_FUNCS = {
     'echo': ['any'], 'ask': ['prompt'], 'ask_twice': [], 'quiet': ['int', 'int'], 'boom': ['int0'],
     'chatty': ['small'], 'noeol': ['str'], 'blank': [], 'swallow': ['int0'], 'writer': ['str'],
     'size': ['seq'], 'ident': ['any'], 'mutate': ['list'], 'tick': [], 'kw': ['int'], 'init_state': ['int'], 'read_state': [],
+    'biggest': ['int', 'int'], 'add_ten': ['int'], 'cached_sq': ['small'], 'acc_add': ['int'],
 }
 
 
